@@ -69,6 +69,22 @@ def rx_args(T, nsp):
     return (re_, pr_, ptype, pd, T["dtype"], [spn(i) for i in T["dre"]], [spn(i) for i in T["dpr"]], dd)
 
 
+_SHARED = {}
+
+
+def shared_dicts(args):
+    """The caller's dictionaries are INPUTS of create_reaction: a program that keeps one dictionary per distinct content
+    and passes the same object for every reaction with that content (a shared rate constant in a loop) builds the same
+    model as one that writes a fresh dictionary each time.  Content-equal propensity / delay dictionaries are one object."""
+    import json
+    args = list(args)
+    for pos in (3, 7):
+        if len(args) > pos and isinstance(args[pos], dict):
+            key = json.dumps(args[pos], sort_keys=True, default=str)
+            args[pos] = _SHARED.setdefault(key, args[pos])
+    return tuple(args)
+
+
 def rule_args(T, nsp):
     if T["rtype"] == "ode":
         return ("ode", {"equation": expr_text(T["expr"], T["pars"], nsp), "target": spn(T["tsp"])}, "dt")
@@ -153,7 +169,7 @@ class World:
         for i in pre["sp"]:
             m._add_species(spn(i))
         for t in pre["rx"]:
-            m.create_reaction(*rx_args(self.menu["rx"][t - 1], self.nsp))
+            m.create_reaction(*shared_dicts(rx_args(self.menu["rx"][t - 1], self.nsp)))
         for u in pre["rules"]:
             m.create_rule(*rule_args(self.menu["rules"][u - 1], self.nsp))
         for l in pre["lin"]:
@@ -210,7 +226,7 @@ class World:
             elif op == "setsp":
                 m.set_species({st["s"]: f(st["q"])})
             elif op == "addrx":
-                m.create_reaction(*rx_args(self.menu["rx"][st["n"] - 1], self.nsp))
+                m.create_reaction(*shared_dicts(rx_args(self.menu["rx"][st["n"] - 1], self.nsp)))
             elif op == "addrule":
                 m.create_rule(*rule_args(self.menu["rules"][st["n"] - 1], self.nsp))
             elif op == "addlin":
